@@ -13,13 +13,13 @@ CONSTANTS
   Caps <- CapsOne
   MaxCookie = 3
   InqBound = 1
-  Kinds = {"CreateObject", "DestroyObject", "CreateService", "AddBusListenerFilter", "RemoveBusListenerFilter", "ClearBusListenerFilters", "StartBusListener", "StopBusListener", "DestroyBusListener"}
-  Faults = {"ends"}
+  Kinds = {"AbortFunctionCall", "CreateService2", "QueryServiceInfo", "SubscribeService", "UnsubscribeService", "SubscribeAllEvents", "UnsubscribeAllEvents", "CallFunction2", "CallFunction", "CallFunctionReply", "EmitEvent", "SubscribeEvent"}
+  Faults = {}
   WrongKinds = {}
-  MsgBudget = 3
-  ScriptSel = "lst"
-  V0 = 20
-  V1 = 20
+  MsgBudget = 2
+  ScriptSel = "svc"
+  V0 = 15
+  V1 = 19
 VIEW view
 INVARIANTS ObserverOk NoPanicSite BoundaryConsistent FlagsOk StoppedClean
 CHECK_DEADLOCK FALSE
